@@ -5,6 +5,7 @@
 -/
 import Rox.Props.C06Base
 import Rox.Lemmas.NsScope
+import Rox.Lemmas.ElemNs
 
 namespace Rox.Props.C06
 open Rox Rox.Lemmas
@@ -28,5 +29,30 @@ theorem scoping (c c' : Ctx) (nss : Range) (hp : c.parentId < c.doc.nodes.size)
       (scopeFind c.doc.ns (rangeList c.doc.ns (c.nsStartIdx, c.doc.ns.treeOrder.size)) pfx).orElse
         (fun _ => scopeFind c.doc.ns (rangeList c.doc.ns (parentRange c)) pfx) :=
   resolveNamespaces_scope c c' nss hp hn h pfx
+
+/-- **The namespace of an element name** (every context the parser can be in): when a start tag is
+completed, the new element's namespace is what its own start tag declares for its prefix — for an
+unprefixed name its own default-namespace declaration —, and otherwise whatever its parent's
+in-scope list resolves that prefix to (`none` for an unprefixed name without any default
+namespace in scope). -/
+theorem element_namespace (txt : Bytes) (c c' : Ctx) (e : EndKind) (r : Range)
+    (he : e = .open ∨ e = .empty) (hb : BInv c) (hn : NsOk c.doc c.nsStartIdx)
+    (hx : c.tagName.pfx ≠ Lit.xml) (h : processElement txt c e r = .ok c') :
+    ∃ (n : NodeData) (tn : Option Nat) (name : Span) (attrs nss : Range),
+      c'.doc.nodes[c.doc.nodes.size]? = some n ∧ n.kind = .element tn name attrs nss ∧
+      n.parent = some c.parentId ∧ name = c.tagName.nameSpan ∧
+      tn = (scopeFind c.doc.ns (rangeList c.doc.ns (c.nsStartIdx, c.doc.ns.treeOrder.size))
+              (prefixKey c.tagName.pfx)).orElse
+            (fun _ => scopeFind c.doc.ns (rangeList c.doc.ns (parentRange c)) (prefixKey c.tagName.pfx)) :=
+  processElement_tag_namespace txt c c' e r he hb hn hx h
+
+/-- An element named `xml:…` is in the XML namespace (table entry 0) whatever is declared (the D11
+repair). -/
+theorem element_xml_prefix (txt : Bytes) (c c' : Ctx) (e : EndKind) (r : Range)
+    (he : e = .open ∨ e = .empty) (hb : BInv c) (hn : NsOk c.doc c.nsStartIdx)
+    (hx : c.tagName.pfx = Lit.xml) (h : processElement txt c e r = .ok c') :
+    ∃ (n : NodeData) (name : Span) (attrs nss : Range),
+      c'.doc.nodes[c.doc.nodes.size]? = some n ∧ n.kind = .element (some 0) name attrs nss :=
+  processElement_xml_prefix txt c c' e r he hb hn hx h
 
 end Rox.Props.C06
